@@ -230,6 +230,9 @@ pub fn run(ctx: &Ctx) {
             c
         })
     }, check);
+    if ctx.tier == crate::core::Tier::Thorough {
+        crate::fuzzrun::campaign(ctx, "fz_encode", 8, crate::fuzzrun::runs(30_000), 24_000);
+    }
 }
 
 pub fn replay(path: &str) -> Result<Outcome, String> {
